@@ -6,7 +6,7 @@ sys.path.insert(0, ROOT)
 import checks
 
 NOT_APPLICABLE = {
-    "C16": "crash durability of acknowledged writes is a property of badger's value log/LSM and the kernel under SIGKILL; the only /repo code involved is one db.Update(txn.Set) call, so there is nothing solver-based symbolic execution of /repo code could encode (a model of badger would verify the model). DESIGN.md section 6/C16.",
+    "C16": "crash durability of acknowledged writes is a property of badger's value log/LSM and the kernel under SIGKILL; the only /repo code involved is one db.Update(txn.Set) call, so there is nothing solver-based symbolic execution of /repo code could encode (a model of badger would verify the model). DESIGN.md section 7.",
 }
 PENDING = "check not built yet in this round (solver-based harness pending; see DESIGN.md section 10 build order)"
 
